@@ -273,11 +273,46 @@ def work_tables(job):
     return acc.result()
 
 
+def work_table_history(job):
+    """the same lookup formulas over a table whose key cells are re-assigned between evaluations to values that are
+    == equal but of another type (1 / TRUE, 0 / FALSE, 2 / "2"): results may depend only on the current table"""
+    acc = Acc()
+    ev = feval.Evaluator()
+    twins = [[1, 2, 3], [True, 2, 3], [1, 2, 3], [1.0, 2, 3], [0, 1, 2], [False, 1, 2], [0, True, 2], ['1', 2, 3], [1, 2, 3],
+             [True, False, 3], [1, 0, 3]]
+    lookups = [1, True, 0, False, '1', 2]
+    for order in (twins, list(reversed(twins))):
+        for keys in order:
+            env = {}
+            for r, k in enumerate(keys):
+                env[f'A{r + 1}'] = k
+                env[f'B{r + 1}'] = 100 * (r + 1)
+                env[f'{W.get_column_letter(r + 1)}11'] = k
+                env[f'{W.get_column_letter(r + 1)}12'] = 100 * (r + 1)
+            for v in lookups:
+                env['K1'] = v
+                exp_pos = ref_match0(v, keys)
+                exp = '#N/A' if exp_pos == '#N/A' else 100 * exp_pos
+                for f in ('=VLOOKUP(K1,A1:B3,2,FALSE)', '=HLOOKUP(K1,A11:C12,2,FALSE)', '=INDEX(B1:B3,MATCH(K1,A1:A3,0))'):
+                    o = ev.run(f, env)
+                    acc.add('evaluations')
+                    acc.add('states')
+                    acc.add('distinct_nontrivial')
+                    if exp_pos is not None and (o[0] != 'ok' or not W.veq(o[1], exp)):
+                        acc.violation(dict(kind='history', fn=f.split('(')[0][1:], verdict='wrong-value', keys=jsonable(keys), v=jsonable(v),
+                                           observed=jsonable(o[:2]), expected=jsonable(exp)),
+                                      f'{f} with keys {keys!r} (after earlier evaluations over type-twin tables) looking up {v!r} = {o[:2]!r}, '
+                                      f'linear scan gives {exp!r}')
+    acc.counts['transitions'] = acc.counts.get('evaluations', 0)
+    return acc.result()
+
+
 def run(ctx):
     m = 64
     ctx.pmap(work_match0, [((k + ctx.seed) % m, m, 5 if ctx.thorough else 4) for k in range(m)], timeout=6000)
     ctx.pmap(work_match1, [(k, m, 6 if ctx.thorough else 5) for k in range(m)], timeout=6000)
     ctx.pmap(work_tables, [(k, 16) for k in range(16)], timeout=6000)
+    ctx.pmap(work_table_history, [(0,)], timeout=600)
     ctx.counts['traces_validated_against_impl'] = ctx.counts.get('evaluations', 0)
     ctx.extra['pool'] = [repr(p) for p in POOL0]
     ctx.extra['sorted_pool'] = [repr(p) for p in SORTED_POOL]
@@ -296,6 +331,10 @@ def replay(case):
             return bad, f"{case['formula']} over {case['vec']} K1={case['v']!r} -> {obs[:2]!r}; linear scan {exp!r}"
         bad = obs[0] != 'ok' or not acceptable1(case['v'], case['vec'], case['sign'], obs[1])
         return bad, f"{case['formula']} over {case['vec']} K1={case['v']!r} -> {obs[:2]!r}"
+    if case['kind'] == 'history':
+        r = work_table_history((0,))
+        hits = [m for c, m in r['violations'] if c.get('keys') == case.get('keys') and c.get('v') == case.get('v')]
+        return bool(hits), '\n'.join(hits[:2]) or 'no violation'
     r = work_tables((0, 1))
     hits = [m for c, m in r['violations'] if all(c.get(x) == case.get(x) for x in ('fn', 'keys', 'width', 'v', 'exact', 'idx', 'verdict'))]
     return bool(hits), '\n'.join(hits[:2]) or 'no violation'
